@@ -102,6 +102,18 @@ pub fn run_check(prop: &str, tier: &str) -> i32 {
             let s = suites::all_suites(thorough);
             seq_check(prop, tier, s, &["C01"], budget, &mut report);
         }
+        "C11" => {
+            let s = pick(&["mem-ttl", "disk-v3-ttl", "disk-v1-ttl", "focus-v3-ttl", "focus-v2-ttl", "focus-v3-ttl-nocache", "ts-mem"], thorough);
+            seq_check(prop, tier, s, &["C11", "C01", "C14"], budget, &mut report);
+        }
+        "C12" => {
+            let s = pick(&["ts-mem", "ts-mem-limit", "ts-disk-v1", "ts-disk-v2", "ts-disk-v3", "mem-limit", "mem-core", "disk-limit"], thorough);
+            seq_check(prop, tier, s, &["C12"], budget, &mut report);
+        }
+        "C13" => {
+            let s = pick(&["mem-core", "mem-limit", "mem-ttl", "ts-mem-limit", "disk-limit", "focus-v3", "focus-v3-ttl", "edge-v1", "disk-v2"], thorough);
+            seq_check(prop, tier, s, &["C13"], budget, &mut report);
+        }
         _ => {
             eprintln!("unknown property {prop}");
             return 2;
@@ -158,6 +170,34 @@ pub fn run_one_path(suite: &str, hist: &[u16], thorough: bool) -> i32 {
             println!("no violation; canonical state {:016x}", po.canon);
             0
         }
+    }
+}
+
+pub fn run_suite(name: &str, depth: usize, seconds: f64) -> i32 {
+    let Some(mut s) = suites::find_suite(name, false) else {
+        eprintln!("no suite {name}");
+        return 2;
+    };
+    s.depth = depth;
+    let dl = Deadline::new(seconds);
+    let r = seq::explore(&s, &dl, worker_threads(), None);
+    println!(
+        "suite {} depth {} completed {} complete={} states={} transitions={} outcomes={} wall={:.1}s",
+        s.name, depth, r.max_depth_completed, r.complete, r.states, r.transitions, r.distinct_outcomes, dl.elapsed()
+    );
+    for m in &r.machinery {
+        println!("MACHINERY {m}");
+    }
+    for (h, v) in r.violations.iter().take(5) {
+        println!("VIOLATION {:?} (indices {:?})\n   {v}", seq::describe_hist(&s, h), h);
+    }
+    for (o, n) in &r.observations {
+        println!("observation x{n}: {o}");
+    }
+    if !r.violations.is_empty() {
+        1
+    } else {
+        0
     }
 }
 
